@@ -10,7 +10,7 @@
    addresses; [saved_bytes s i] are the bytes the save command writes for transfer number i; [s_fs s] is the
    file system (path -> content); [s_pub s] the published tree items. *)
 From Coq Require Import List NArith Bool.
-From AdltV Require Import Base.Res Base.MachInt FileTransfer.Ft FileTransfer.FtProofs Exec.C17.
+From AdltV Require Import Base.Res Base.MachInt FileTransfer.Ft FileTransfer.FtProofs FileTransfer.FtRecover Exec.C17.
 Import ListNotations.
 Open Scope N_scope.
 
@@ -32,6 +32,23 @@ Theorem C17_inorder_complete_exact : forall c fs pre mflst post k f chunks s ret
               (c_allow_save c = true -> concat chunks <> [] -> saved_bytes s i = Some (concat chunks)) /\
               nth_error (map (fun t => (t_key t, t_state t)) (s_pub s)) i = Some (k, Complete).
 Proof. exact inorder_complete_exact. Qed.
+
+(* (1') The same without announcement (single fault "FLST lost"): no earlier message addressed the key; package 1,
+   then packages 2..n in this order, all of the size of the first one (interleaved with messages that do not
+   address the key and with duplicates of packages already sent), then the end marker for the key, then
+   anything.  Whatever the sizes (the 512 of the recovery buffer is a flag, not a bound): the transfer is
+   Complete, reported Complete, its size is the file's and the save command delivers exactly the file. *)
+Theorem C17_recovered_complete_exact : forall c fs pre m1 post k p1 chunks s rets,
+  Forall (fun m => msg_key c m <> Some k) pre ->
+  flda_op c m1 = Some (k, (1, p1)) -> 0 < lenN p1 ->
+  Forall (fun p => lenN p = lenN p1) chunks -> N.of_nat (length chunks) + 4 < u64max ->
+  InRec c k 2 chunks post ->
+  run c (init_st fs) (pre ++ m1 :: post) = Ok (s, rets) ->
+  exists i t, nth_error (s_transfers s) i = Some t /\ t_key t = k /\ t_state t = Complete /\
+              t_size t = lenN (p1 ++ concat chunks) /\
+              (c_allow_save c = true -> saved_bytes s i = Some (p1 ++ concat chunks)) /\
+              nth_error (map (fun t => (t_key t, t_state t)) (s_pub s)) i = Some (k, Complete).
+Proof. exact recovered_complete_exact. Qed.
 
 (* (2) Whatever the package sequence (drops, swaps, resized packages, duplicates, other transfers, lost
    announcement): a transfer that is Complete holds exactly the packages numbered 1, 2, .., n, taken in
@@ -67,6 +84,20 @@ Theorem C17_complete_needs_every_package : forall c fs ms s rets i t,
                    (if j =? f_nr f then lenN raw <= f_bs f else lenN raw = f_bs f))
   \/ t_name t = MISSING_FLST.
 Proof. exact complete_needs_every_package. Qed.
+
+(* (2'') what the state machine COUNTS is what it STORES, for every package sequence, with or without announcement
+   (modelling assumption: the buffer grows on demand, capacities are flags, never bounds): a running transfer that
+   keeps data has stored as many bytes as it counted; a Complete transfer reports the counted payload as file size
+   and the save command / the auto-saved file deliver exactly that many bytes (their content is given by (2)) *)
+Theorem C17_stored_equals_counted : forall c fs ms s rets i t,
+  run c (init_st fs) ms = Ok (s, rets) -> nth_error (s_transfers s) i = Some t ->
+  (is_active (t_state t) = true -> 0 < t_cap t -> lenN (t_data t) = t_payload t) /\
+  (t_state t = Complete ->
+     t_size t = t_payload t /\
+     (forall d, saved_bytes s i = Some d -> lenN d = t_size t) /\
+     (forall p, t_saved t = Some p -> exists d, lookup_path p (s_fs s) = Some d /\ lenN d = t_size t) /\
+     (t_data t = [] \/ lenN (t_data t) = t_size t)).
+Proof. exact stored_equals_counted. Qed.
 
 (* the save command only delivers data of transfers that are Complete *)
 Theorem C17_saved_only_complete : forall c fs ms s rets i d,
@@ -161,9 +192,35 @@ Proof.
   - split; [vm_compute; reflexivity|]. vm_compute. reflexivity.
 Qed.
 
+(* non-vacuity of (1'): three packages of 300 bytes (900 > 512) without announcement, a foreign message, a duplicate, the end marker *)
+Example C17_recovered_nonvacuous :
+  let c := mkCfg true true false None None None None in
+  let ext n := Some (1, 2, 65, n) in
+  let pk j a := expand_msg (7, 0, ext 5, BFldaPat false 2 6 17 j TI_RAWD a 3 300) in
+  let other := expand_msg (8, 0, ext 5, BFlda false 2 6 17 2 TI_RAWD [9]) in
+  let fin := expand_msg (7, 0, ext 3, BFlfi false 2 17) in
+  let post := [other; pk 2 50; pk 1 10; pk 3 90; fin; other] in
+  exists s rets,
+    Forall (fun m => msg_key c m <> Some (7, 0, 17)) [other] /\
+    flda_op c (pk 1 10) = Some ((7, 0, 17), (1, pat 10 3 300)) /\
+    InRec c (7, 0, 17) 2 [pat 50 3 300; pat 90 3 300] post /\
+    run c (init_st []) ([other] ++ pk 1 10 :: post) = Ok (s, rets) /\
+    saved_bytes s 0 = Some (pat 10 3 300 ++ pat 50 3 300 ++ pat 90 3 300).
+Proof.
+  cbv zeta. eexists. eexists.
+  split; [constructor; [vm_compute; discriminate|constructor]|].
+  split; [vm_compute; reflexivity|]. split.
+  - eapply ir_other; [vm_compute; discriminate|]. eapply ir_pkg; [vm_compute; reflexivity|].
+    eapply ir_dup; [vm_compute; reflexivity|reflexivity|reflexivity|]. eapply ir_pkg; [vm_compute; reflexivity|].
+    apply ir_end; vm_compute; reflexivity.
+  - split; [vm_compute; reflexivity|]. vm_compute. reflexivity.
+Qed.
+
 Print Assumptions C17_inorder_complete_exact.
+Print Assumptions C17_recovered_complete_exact.
 Print Assumptions C17_complete_implies_exact.
 Print Assumptions C17_complete_needs_every_package.
+Print Assumptions C17_stored_equals_counted.
 Print Assumptions C17_saved_only_complete.
 Print Assumptions C17_published_states_current.
 Print Assumptions C17_autosave_confined.
@@ -173,3 +230,4 @@ Print Assumptions C17_prealloc_bounded.
 Print Assumptions C17_drops_only_flda.
 Print Assumptions C17_duplicate_defect_before_fix.
 Print Assumptions C17_nonvacuous.
+Print Assumptions C17_recovered_nonvacuous.
